@@ -9,6 +9,7 @@ prop("C06", pkg="c06",
           "case as replay). Non-trivial = hostile value, composite generated type, or mutated/truncated document of >= 8 bytes into a composite target.",
      quick=dict(shards=16, scale=1, timeout=1200),
      thorough=dict(shards=16, scale=20, timeout=3400),
+     fuzz=[('FuzzUnmarshalNoCrash', 90)],
      technique="rapid property-based robustness testing + enumerated hostile inputs, out-of-process supervision (journal, watchdog); oracle: the call returns",
      level_text="Exploration: totality ('returns a value or an error') checked on several hundred thousand calls per quick run under recover with faults converted to "
                 "panics, each case journalled so that a fatal error or stack overflow is attributed to its input; 'never hangs' is observed through a 120 s "
